@@ -252,7 +252,7 @@ func (w *vXSWorld) reader(view func() *vXSView, reads func(cciptypes.ChainSelect
 			if w.failExec {
 				for _, p := range view().reps {
 					if p.chain == source && !p.hidden && p.lo > uint64(q.End()) {
-						return nil, vErr // not the last range of this chain
+						return nil, vErrNext() // not the last range of this chain
 					}
 				}
 			}
